@@ -371,7 +371,13 @@ impl Check for C03 {
             let ops = std::mem::take(&mut sc.ticks).into_iter().map(HOp::Tick).collect();
             Case { sc, ops, world: None }
         });
-        prop_oneof![6 => layer_a, 4 => layer_b, 1 => honest].boxed()
+        // ... and streams of hundreds of tiny packets per tick with parent leads at the header field widths (valid API
+        // calls only; what the frame packer does with them must not trip its own assertions)
+        let bulk = bulk_scenario_strategy(tier.pick(100, 300), tier.pick(30, 80), true, false).prop_map(|mut sc| {
+            let ops = std::mem::take(&mut sc.ticks).into_iter().map(HOp::Tick).collect();
+            Case { sc, ops, world: None }
+        });
+        prop_oneof![120 => layer_a, 80 => layer_b, 20 => honest, 3 => bulk].boxed()
     }
 
     fn cases(&self, tier: Tier) -> u64 {
@@ -401,7 +407,7 @@ impl Check for C03 {
     }
 
     fn rule(&self) -> String {
-        "honest case (1 in 11) = a long history (250 quick / 600 thorough ticks) of honest traffic under per-frame faults, no hostile frame at all. layer A case = honest SimPair configuration + op sequence mixing honest ticks (sends in all modes, step/flush at arbitrary spacing incl. 0) with hostile input handed to the victim: CRC-valid data / ack / sync frames whose ids are drawn relative to the victim's live window state (base, base+W, +-1, +-W, 2^20, 2^31, 2^32-1, random), datagrams with arbitrary channel / parent leads / fragment ids / counts / lengths, ack groups with correct, flipped or constant nonce, raw bytes, mutated and replayed genuine frames. Non-trivial = at least one hostile frame passed Frame::read (reached the connection logic). Distinct = distinct serialised case.".into()
+        "bulk case (1 in 75) = an honest stream of hundreds of tiny packets per tick whose parent leads sit at the header field widths (127..129, 255..257). honest case (1 in 11) = a long history (250 quick / 600 thorough ticks) of honest traffic under per-frame faults, no hostile frame at all. layer A case = honest SimPair configuration + op sequence mixing honest ticks (sends in all modes, step/flush at arbitrary spacing incl. 0) with hostile input handed to the victim: CRC-valid data / ack / sync frames whose ids are drawn relative to the victim's live window state (base, base+W, +-1, +-W, 2^20, 2^31, 2^32-1, random), datagrams with arbitrary channel / parent leads / fragment ids / counts / lengths, ack groups with correct, flipped or constant nonce, raw bytes, mutated and replayed genuine frames. Non-trivial = at least one hostile frame passed Frame::read (reached the connection logic). Distinct = distinct serialised case.".into()
     }
 
     fn assumptions(&self) -> Vec<String> {
